@@ -183,3 +183,39 @@ def jobserver_abort_unreaped(ninja):
             if p and p.poll() is None: p.kill()
             shutil.rmtree(d, ignore_errors=True)
     return bad
+
+def concurrency_limits(ninja):
+    """real processes: at no moment more than -j commands run, more than `depth` of one pool, more than one console command;
+    every command runs exactly once; observed from start/end marks the commands append (O_APPEND, one short line each)"""
+    bad = []
+    for j, depth in ((3, 2), (1, 1), (8, 3)):
+        d = mk('c06c')
+        try:
+            L = ['pool p', '  depth = %d' % depth,
+                 'rule r', '  command = echo S $k >> marks; sleep 0.05; echo E $k >> marks; touch $out',
+                 'rule rc', '  command = echo S $k >> marks; sleep 0.03; echo E $k >> marks; touch $out', '  pool = console']
+            names = []
+            for k in range(14):
+                pool = 'p' if k % 2 == 0 else None
+                L.append('build o%d: %s%s' % (k, 'rc' if k in (5, 9) else 'r', (' o%d' % (k - 7)) if k >= 10 else ''))
+                L.append('  k = %s%d' % ('P' if pool and k not in (5, 9) else 'C' if k in (5, 9) else 'N', k))
+                if pool and k not in (5, 9): L.append('  pool = p')
+                names.append('o%d' % k)
+            L.append('build all: phony ' + ' '.join(names)); L.append('default all')
+            open(d + '/build.ninja', 'w').write('\n'.join(L) + '\n')
+            p = subprocess.run([ninja, '-C', d, '-j%d' % j], stdout=subprocess.PIPE, stderr=subprocess.STDOUT, timeout=120)
+            if p.returncode != 0: bad.append(('real-concurrency', '-j%d: exit %d: %s' % (j, p.returncode, p.stdout.decode(errors='replace')[-200:]))); continue
+            running = set(); mx = mxp = mxc = 0; started = {}
+            for l in open(d + '/marks').read().split('\n'):
+                w = l.split()
+                if len(w) != 2: continue
+                if w[0] == 'S':
+                    started[w[1]] = started.get(w[1], 0) + 1; running.add(w[1])
+                    mx = max(mx, len(running)); mxp = max(mxp, sum(1 for x in running if x[0] == 'P')); mxc = max(mxc, sum(1 for x in running if x[0] == 'C'))
+                else: running.discard(w[1])
+            if mx > j: bad.append(('real-concurrency', '-j%d: %d commands were running at the same time' % (j, mx)))
+            if mxp > depth: bad.append(('real-concurrency', 'pool depth %d: %d commands of the pool were running at the same time' % (depth, mxp)))
+            if mxc > 1: bad.append(('real-concurrency', '%d console-pool commands were running at the same time' % mxc))
+            if len(started) != 14 or any(v != 1 for v in started.values()): bad.append(('real-once', '-j%d: commands started %r (each of 14 expected exactly once)' % (j, sorted(started.items()))))
+        finally: shutil.rmtree(d, ignore_errors=True)
+    return bad
